@@ -96,6 +96,9 @@ pub enum InjectSpec {
     Nak(Vec<(u64, u64)>),
     /// EOF(NoError) with a wrong checksum / a file size delta, to the receiver
     BadEof { checksum_xor: u32, size_delta: i64 },
+    /// a file data PDU for [offset, offset+len) to the receiver: source bytes where the range
+    /// lies inside the file, 0xEE beyond it (a peer that sends more than it announces)
+    Data { offset: u64, len: u64 },
 }
 
 #[derive(Clone, Debug, Serialize, Deserialize)]
@@ -147,6 +150,9 @@ pub struct Scenario {
     pub max_depth: usize,
     /// cycles are expected (Ignore handlers) — the engine cuts instead of reporting livelock
     pub allow_cycles: bool,
+    /// the source name is a symbolic link (inside the sender's root) to the file that holds the data
+    #[serde(default)]
+    pub src_symlink: bool,
 }
 impl Scenario {
     pub fn base(name: &str) -> Scenario {
@@ -186,6 +192,7 @@ impl Scenario {
             wait_ms: 0,
             max_depth: 400,
             allow_cycles: false,
+            src_symlink: false,
         }
     }
     pub fn source_bytes(&self) -> Vec<u8> {
@@ -527,7 +534,13 @@ impl World {
         clear_dir(&dir.join("r"));
         let src = scn.source_bytes();
         if scn.file_size.is_some() {
-            std::fs::write(dir.join("s").join(&ids.src_name), &src).unwrap();
+            if scn.src_symlink {
+                let real = format!("real-{}", ids.src_name);
+                std::fs::write(dir.join("s").join(&real), &src).unwrap();
+                std::os::unix::fs::symlink(&real, dir.join("s").join(&ids.src_name)).unwrap();
+            } else {
+                std::fs::write(dir.join("s").join(&ids.src_name), &src).unwrap();
+            }
         }
         for (n, c) in &scn.pre_files {
             let p = dir.join("r").join(n);
@@ -729,6 +742,10 @@ impl World {
         let fsf = FileSizeFlag::Small;
         let crc = if self.scn.crc { CRCFlag::Present } else { CRCFlag::NotPresent };
         let (to, dir, payload) = match spec {
+            InjectSpec::Data { offset, len } => {
+                let file_data: Vec<u8> = (*offset..*offset + *len).map(|i| self.src.get(i as usize).copied().unwrap_or(0xEE)).collect();
+                (Side::R, Direction::ToReceiver, PDUPayload::FileData(cfdp_core::pdu::FileDataPDU::Unsegmented(cfdp_core::pdu::UnsegmentedFileData { offset: *offset, file_data })))
+            }
             InjectSpec::Nak(reqs) => {
                 let segment_requests: Vec<SegmentRequestForm> =
                     reqs.iter().map(|(a, b)| SegmentRequestForm { start_offset: *a, end_offset: *b }).collect();
@@ -753,7 +770,7 @@ impl World {
         };
         let header = PDUHeader {
             version: U3::One,
-            pdu_type: PDUType::FileDirective,
+            pdu_type: if matches!(payload, PDUPayload::FileData(_)) { PDUType::FileData } else { PDUType::FileDirective },
             direction: dir,
             transmission_mode: self.scn.mode(),
             crc_flag: crc,
@@ -879,7 +896,7 @@ impl World {
             for (i, spec) in scn.inject.iter().enumerate() {
                 let to = match spec {
                     InjectSpec::Nak(_) => Side::S,
-                    InjectSpec::BadEof { .. } => Side::R,
+                    InjectSpec::BadEof { .. } | InjectSpec::Data { .. } => Side::R,
                 };
                 if self.life(to).live() {
                     v.push(Ev::Inject(i as u8));
